@@ -1,5 +1,9 @@
 """C15 (history property; see DESIGN.md section 5)."""
+import copy
+
+import common
 import gen
+import hist
 from props.hist_base import HistPlugin
 
 
@@ -22,3 +26,84 @@ class Plugin(HistPlugin):
             return HistPlugin.gen_case(self, rng, i, tier)
         finally:
             gen.TINY[0] = False
+
+    def extra_checks(self, rng, tier, seed):
+        """The ordered/unordered bulk builders: same effect and counters as bulk_write; an empty
+        bulk raises InvalidOperation; a bulk can be executed only once - after a success and
+        after a BulkWriteError alike - and the second attempt changes nothing."""
+        import mongomock
+        n = 150 if tier == 'quick' else 3000
+        viol = []
+        done = 0
+        for i in range(n):
+            gen.TINY[0] = True
+            try:
+                docs = [hist.small_doc(rng) for _ in range(rng.choice([0, 1, 2, 3]))]
+                seen, init = set(), []
+                for d in docs:
+                    key = repr(d.get('_id'))
+                    if '_id' in d and key not in seen:
+                        seen.add(key)
+                        init.append(d)
+                op = hist.gen_op(rng, init, {'bulk': 1})
+            finally:
+                gen.TINY[0] = False
+            ordered = op['ordered']
+
+            def fresh():
+                c = mongomock.MongoClient().db.c
+                if init:
+                    c.insert_many(copy.deepcopy(init))
+                return c
+
+            def build(c):
+                b = c.initialize_ordered_bulk_op() if ordered else c.initialize_unordered_bulk_op()
+                for r in copy.deepcopy(op['reqs']):
+                    hist.BulkReq(r['kind'], **{k: v for k, v in r.items() if k != 'kind'})._add_to_bulk(b)
+                return b
+
+            def run(fn):
+                try:
+                    return ('ok', fn())
+                except mongomock.BulkWriteError as e:
+                    d = e.details
+                    return ('bulk', {k: d[k] for k in ('nInserted', 'nMatched', 'nModified', 'nUpserted', 'nRemoved')},
+                            [w['index'] for w in d['writeErrors']])
+                except Exception as e:  # noqa
+                    return ('raise', type(e).__name__)
+            from unittest import mock
+            with mock.patch('mongomock.collection.ObjectId', common.CounterOidFactory(1000)), \
+                    mock.patch('mongomock.utcnow', return_value=hist.T0):
+                c1 = fresh()
+                r1 = run(lambda: hist.run_op(c1, op, [None]))
+            with mock.patch('mongomock.collection.ObjectId', common.CounterOidFactory(1000)), \
+                    mock.patch('mongomock.utcnow', return_value=hist.T0):
+                c2 = fresh()
+                try:
+                    b = build(c2)
+                except Exception as e:  # registration-time validation
+                    continue
+                r2 = run(lambda: {k: v for k, v in b.execute().items()
+                                  if k in ('nInserted', 'nMatched', 'nModified', 'nUpserted', 'nRemoved')})
+            s1 = hist.dump_store(c1)
+            s2 = hist.dump_store(c2)
+            done += 1
+            bad = None
+            if repr(s1) != repr(s2):
+                bad = 'the builder and bulk_write leave different collections'
+            before = repr(hist.dump_store(c2))
+            r3 = run(lambda: b.execute())
+            if r3 != ('raise', 'InvalidOperation'):
+                bad = 'a bulk was executed a second time: %r' % (r3,)
+            elif repr(hist.dump_store(c2)) != before:
+                bad = 'the refused second execute() changed the collection'
+            if bad:
+                viol.append({'case': {'init': common.to_jsonable(init), 'op': common.to_jsonable(op)},
+                             'impl': {'bulk_write': repr(r1)[:300], 'builder': repr(r2)[:300], 'second': repr(r3)[:200]},
+                             'failing_clause': bad})
+                if len(viol) >= 3:
+                    break
+        e = run(lambda: mongomock.MongoClient().db.c.initialize_ordered_bulk_op().execute())
+        if e != ('raise', 'InvalidOperation'):
+            viol.append({'case': 'empty bulk', 'impl': repr(e), 'failing_clause': 'an empty bulk did not raise InvalidOperation'})
+        return viol[:3], {'builder_probes': done}
